@@ -298,6 +298,15 @@ func c20Embeds() []c20Embed {
 		{"IsNil/NotEmpty", func(n ap.Item) { _ = ap.IsNil(mk(n)); _ = ap.NotEmpty(mk(n)) }},
 		{"Recipients", func(n ap.Item) { _ = mk(n).Recipients() }},
 		{"Recipients(Block)", func(n ap.Item) { a := mk(n); a.Type = ap.BlockType; _ = a.Recipients() }},
+		// a Block whose object is a valid value: the blocked object is taken out of every addressing list, which walks
+		// the lists holding the nil-like item
+		{"Recipients(Block of a valid object)", func(n ap.Item) {
+			for _, ob := range []ap.Item{ap.IRI("https://example.com/a"), &ap.Actor{ID: "https://example.com/b", Type: ap.PersonType}} {
+				a := mk(n)
+				a.Type, a.Object = ap.BlockType, ob
+				_ = a.Recipients()
+			}
+		}},
 		{"Clean", func(n ap.Item) { mk(n).Clean() }},
 		{"CleanRecipients", func(n ap.Item) { _ = ap.CleanRecipients(mk(n)) }},
 		{"FlattenProperties", func(n ap.Item) { _ = ap.FlattenProperties(mk(n)) }},
@@ -476,6 +485,51 @@ func runC20(seed int64, n int, tier string, outDir string) (*Report, error) {
 			}()
 			rep.Evaluations++
 			rep.Distinguish("embedded:"+e.name+"|"+names[i], true)
+		}
+	}
+	// every helper of the matrix again, on a list / collection that HOLDS the nil-like item as a member ("as a member of
+	// lists ... of otherwise valid values"): no panic, and a callback handed a pointer gets at worst a nil pointer.
+	// The collection-path helpers are walked for every path, since they pick the property by path.
+	wrappers := []struct {
+		name string
+		mk   func(n ap.Item) ap.Item
+	}{
+		{"ItemCollection{n}", func(n ap.Item) ap.Item { return ap.ItemCollection{n} }},
+		{"ItemCollection{iri,n,object}", func(n ap.Item) ap.Item {
+			return ap.ItemCollection{ap.IRI("https://example.com/a"), n, &ap.Object{ID: "https://example.com/o", Type: ap.NoteType}}
+		}},
+		{"*ItemCollection{n,actor}", func(n ap.Item) ap.Item {
+			return &ap.ItemCollection{n, &ap.Actor{ID: "https://example.com/p", Type: ap.PersonType}}
+		}},
+		{"*Collection{items:n}", func(n ap.Item) ap.Item {
+			return &ap.Collection{ID: "https://example.com/c", Type: ap.CollectionType, Items: ap.ItemCollection{n, ap.IRI("https://example.com/a")}}
+		}},
+		{"*OrderedCollectionPage{items:n}", func(n ap.Item) ap.Item {
+			return &ap.OrderedCollectionPage{ID: "https://example.com/c?p=1", Type: ap.OrderedCollectionPageType, OrderedItems: ap.ItemCollection{n}}
+		}},
+	}
+	listed := append([]c20Helper{}, helpers...)
+	for _, cp := range []ap.CollectionPath{ap.Unknown, ap.Outbox, ap.Inbox, ap.Shares, ap.Replies, ap.Following, ap.Followers, ap.Liked, ap.Likes} {
+		cp := cp
+		listed = append(listed,
+			c20Helper{"CollectionPath(" + string(cp) + ").Of", func(it ap.Item, cb *string) (any, error) { _ = cp.Of(it); return nil, nil }},
+			c20Helper{"CollectionPath(" + string(cp) + ").IRI", func(it ap.Item, cb *string) (any, error) { _ = cp.IRI(it); return nil, nil }},
+			c20Helper{"CollectionPath(" + string(cp) + ").AddTo", func(it ap.Item, cb *string) (any, error) { _, _ = cp.AddTo(it); return nil, nil }})
+	}
+	for _, h := range listed {
+		for _, w := range wrappers {
+			for i, nv := range nils {
+				out := c20Call(h, w.mk(nv))
+				rep.Evaluations++
+				rep.Distinguish("listed:"+h.name+"|"+w.name+"|"+names[i], true)
+				if out.class == "panic" {
+					rep.Count("listed:panic")
+					rep.Violate(Violation{Op: "listed:" + h.name, Input: w.name + " with n = " + names[i], Expected: "no panic",
+						Observed: out.detail, Class: c20Class("listed:"+h.name, names[i], out)})
+				} else {
+					rep.Count("listed:ok")
+				}
+			}
 		}
 	}
 	if err := c20Deep(seed, n, tier, outDir, rep); err != nil {
